@@ -91,6 +91,27 @@ def run(ck):
                 nb = call['buf_len']
                 for sh_ in sorted(set([1, nb // 2, nb - 1])):
                     jobs.append((c, cmd, ['--short', '%d:%d' % (call['i'], sh_), '--kill', '%d:entry' % (call['i'] + 1)], 'torn@%d:%d/%d' % (call['i'], sh_, nb), call))
+                    # a short write followed by a device that accepts nothing more (disk full / quota): every later write fails
+                    for e in (E.ENOSPC, E.EDQUOT):
+                        jobs.append((c, cmd, ['--short', '%d:%d' % (call['i'], sh_), '--failnr', '%d:%d:%d' % (call['i'] + 1, e, call['nr'])], 'shortthenfail@%d:%d/%d:%d' % (call['i'], sh_, nb, e), call))
+    lvl1 = []
+    for (c, cmd, _), rep in zip(base_jobs, bases):
+        if (c, cmd) not in expect:
+            continue
+        for call in rep['calls']:
+            if call['name'] in ('openat', 'open') and (call['a'][2] if call['name'] == 'openat' else call['a'][1]) & 0o100 and call.get('path', '').startswith(os.path.dirname(LIBP).rsplit('/usr', 1)[0]):
+                for e in (E.EACCES, E.EROFS, E.ENOSPC):
+                    lvl1.append((c, cmd, ['--fail', '%d:%d' % (call['i'], e)], call, e))
+    for (c, cmd, o1, call, e), rep1 in zip(lvl1, pmap(lambda j: one(j[:3]), lvl1)):
+        jobs.append((c, cmd, o1, 'fail@%d(%s):%d' % (call['i'], call['name'], e), call))
+        n1 = rep1.get('ncalls', 0)
+        for k in range(call['i'] + 1, n1):
+            jobs.append((c, cmd, o1 + ['--kill', '%d:entry' % k], 'createfail%d+kill@%d:entry' % (e, k), call))
+            jobs.append((c, cmd, o1 + ['--kill', '%d:exit' % k], 'createfail%d+kill@%d:exit' % (e, k), call))
+        for c2 in rep1.get('calls', []):
+            if c2['i'] > call['i'] and c2['name'] in ('write', 'pwrite64', 'writev', 'fsync', 'close', 'rename', 'ftruncate'):
+                for e2 in (E.ENOSPC, E.EIO):
+                    jobs.append((c, cmd, o1 + ['--failnr', '%d:%d:%d' % (c2['i'], e2, c2['nr'])], 'createfail%d+fail@%d(%s):%d' % (e, c2['i'], c2['name'], e2), c2))
     res = pmap(lambda j: one(j[:3]), jobs)
     for (c, cmd, opts, label, call), rep in zip(jobs, res):
         evals += 1
